@@ -266,8 +266,20 @@ def run_case(chk, stream, case):
                                 % (type(ent).__name__, case["flags"], n, expect)))
         return fails
     chk.seq = getattr(chk, "seq", 0) + 1
+    for rep in range(case.get("repeat", 1)):
+        # the same stanza again, with the SAME id (the server re-uses ping ids; ids restart after a reconnect): it is answered every time
+        fs = _recv_once(chk, case, chk.seq)
+        if fs:
+            if rep:
+                fs = [f._replace(what="occurrence #%d of the same stanza (same id): %s" % (rep + 1, f.what)) for f in fs]
+            return fs
+    return []
+
+
+def _recv_once(chk, case, seq):
+    fails = []
     d = case["d"]
-    node, ups, downs, evts, raised, sent, got = observe_recv(chk, case, chk.seq)
+    node, ups, downs, evts, raised, sent, got = observe_recv(chk, case, seq)
     impl = "ups:%s;downs:%s;evts:%s;raised:%d" % (",".join(ups), ",".join(downs), ",".join(evts), 1 if raised else 0)
     model = chk.driver.ask("route recv %d %s %s" % (case["enc"], case["flags"], desc_line(d)))
     chk.hit("recv:" + d["tag"] + (":" + d.get("ntype", "") if d["tag"] == "notification" else ""), "enc=%d" % case["enc"])
